@@ -164,4 +164,23 @@ Pdf2(comps, xs) ==
                 LN |-> SumTo(nc, LAMBDA c : RMul(q(c), RMul(dx(c), ny(c)))),
                 NL |-> SumTo(nc, LAMBDA c : RMul(q(c), RMul(nx(c), dy(c)))),
                 LL |-> SumTo(nc, LAMBDA c : RMul(q(c), RMul(dx(c), dy(c))))]]
+
+(***************************************************************************)
+(* History independence.  A cache object is a VALUE: integrate*, the       *)
+(* point-mass variants (for cached positive gammas) and the mixture        *)
+(* helpers read it and leave it as it was, and every operator above is a   *)
+(* function of (cached spectra, grid, density, parameters, theta) only.     *)
+(* A session on one object is therefore a sequence of calls whose k-th     *)
+(* result is the result of that call on a freshly built object, whatever   *)
+(* was called before, in whatever order, and however often:                *)
+(*   Session(obj, calls)[k] = Eval(obj, calls[k])     and   obj' = obj.    *)
+(* Eval(_,_) is any of the operators of this module applied to the call's  *)
+(* arguments.  The two clauses judged on recorded sessions:                *)
+(***************************************************************************)
+Session(obj, calls, Eval(_, _)) == [k \in DOMAIN calls |-> Eval(obj, calls[k])]
+\* the result observed at some position of a session on a shared object equals the one observed on a fresh object
+\* (same data, same mask, bit for bit: the code is deterministic)
+HistoryIndependent(shared, fresh) == shared.d = fresh.d /\ shared.m = fresh.m
+\* the object after the session is the object before it (digest of gammas, negative grid and every cached spectrum)
+ObjectUnchanged(before, after) == before = after
 =============================================================================
